@@ -10,8 +10,9 @@
     circuits/{bgv,ckks}/lintrans/lintrans.go       : Permutation.GetDiagonals, Diagonals.Evaluate
 
   over an abstract slot carrier `α` (`SlotOps α`: slot-wise sum and product, cyclic rotation of every
-  row, zero).  The ciphertext layer (hoisting, QP accumulation, lazy reductions, ModDown) is NOT
-  modelled: a ciphertext is represented by the slot vector it decrypts to; `rot k` stands for
+  row, zero).  The ciphertext layer is not modelled here (its lazy-accumulation schedule — counters,
+  margins, reduce points, one accumulator word — is `Model/LinTransLazy.lean`; hoisting, automorphisms,
+  ModDown are not modelled at all): a ciphertext is represented by the slot vector it decrypts to; `rot k` stands for
   "automorphism with Galois element 5^k followed by key switching", `mul pt ct` for the product with
   an encoded diagonal.  What IS modelled exactly: which diagonal is multiplied with which rotation of
   the input, the pre-rotation applied at encoding time, the order of accumulation, the ordered list
